@@ -46,7 +46,10 @@ SEARCH_BUDGET = 150
 RULE = ('streams: scale (all kinds x 12 factors), split3 (trapezoids on/off raster), splitat (trap/triangle/extended '
         'trapezoid x zero/non-zero delay x every raster cut time from before 0 to after the end, with jitter), align '
         '(rf with ring-down, adc, trap, ext, arbitrary, delay, trigger, output; specs in any keyword order; negative '
-        'delays; invalid spec), modaxis (sequences with gradients on several axes, cold/warm cache, shared ids). '
+        'delays; invalid spec; inputs with library ids), modaxis (sequences with gradients on several axes, cold/warm '
+        'cache, ids shared between axes in the same block / only in different blocks / not at all), registered (events '
+        'registered with a Sequence carry library ids: outputs of scale_grad/align must not carry them and, stored with '
+        'add_block and decoded with get_block, must show the scaled / re-timed events; split parts must not carry them). '
         'Oracle = exact-Fraction rendering at corner times, +-raster/8, midpoints; field-by-field equality of everything '
         'else; deepcopy snapshots of the arguments. non-trivial = the call returned parts / events (not an error)')
 TRUSTED = ['binary64 arithmetic of NumPy is outside the model: sampled by correspondence (tolerance 1e-9*scale+1e-12)',
@@ -881,7 +884,7 @@ def run_align(ctx, cases):
 
 
 # ------------------------------------------------------------------------------------------------
-# stream: mod_grad_axis / flip_grad_axis (implementation + oracle only)
+# stream: mod_grad_axis / flip_grad_axis (implementation, oracle, and the store model of Model/ModAxis.v)
 def gen_modaxis_cases(rng, n):
     cs = []
     for i in range(n):
